@@ -497,3 +497,27 @@ PROPS["C07"] = {
         },
     ],
 }
+
+PROPS["C16"] = {
+    "level": "model_checking",
+    "claim": "Bounded model checking of the REAL module-cache fetch protocol (Cache.Fetch, downloadDir, downloadZip, downloadZip1, cachePath, lockVersion, tempFile, downloadDirPartialError.Is, module.EscapePath/EscapeVersion) executed from go/ssa over a file-system model: from every pre-state satisfying the invariant Inv (a directory without the .partial marker is complete; a zip at its final name is complete), for every crash point (the process stops after the k-th file-system effect, k = 0..20) and every single injected I/O or registry fault, the state at the stopping point satisfies Inv again - so Inv holds after any number of interrupted fetches; Fetch and the cache-only reader report success only for a complete, unmarked directory; from every valid state an uninterrupted fault-free Fetch succeeds; the zip reaches its final name only by renaming a fully written, closed temp file; the lock is never re-entered and always released; a lock-free reader whose two stats straddle the writer never observes partial content.",
+    "note": "Trusted: go/ssa, the executor, and the file-system model of harness/modcache/fetch.go (single operations atomic; Rename atomic; the lock excludes other writers; the registry delivers the complete body or an error; modzip.Unzip is modelled as 'create dir, write n files one effect at a time' - its own loop is under C15). Counterexamples are replayed in the executor with all choices fixed (the environment is a model, so there is no native replay). par.ErrCache.Do is modelled as a direct call. Outside: lock-file correctness, in-process single flight under real goroutines, GetZip call counts across processes, permissions, Windows retry semantics. Observation (not claimed as a finding, not replayable natively): when an extraction fails with an I/O error, the cleanup removes the directory and then the marker; a lock-free reader that saw the directory before and the missing marker after gets a path to a directory that no longer exists.",
+    "technique": "exhaustive symbolic-execution exploration of pre-state, crash-point and fault choice variables over the real mod/modcache code with os/robustio/lockedfile/registry calls redirected to a file-system model; invariant and post-conditions asserted on the model state",
+    "bounds": {
+        "quick": "one module version; module zip of 2 files; every pre-state of (zip, stale temp file, stale temp dir, extraction dir with -1..2 files, marker) satisfying Inv; crash after effect k for k in 0..20 or one fault at effect k in 0..20 with/without registry failure",
+        "thorough": "same (the space is explored exhaustively already)",
+    },
+    "outside": ["real file systems and processes", "lockedfile correctness", "concurrent in-process fetches", "modfile cache path (fetchModFileData)"],
+    "assumptions": ["file-system model as described in level_note", "math/rand/v2.IntN returns 0 (temp file name)"],
+    "runs": [
+        {
+            "pkg": "./mod/modcache",
+            "harness": ["modcache/fetch.go"],
+            "native_replay": False,
+            "entries": {
+                "quick": [{"name": "verifHarnessFetchCrashSafety", "params": {"EFFECTS": 20}}],
+                "thorough": [{"name": "verifHarnessFetchCrashSafety", "params": {"EFFECTS": 24}}],
+            },
+        },
+    ],
+}
